@@ -380,6 +380,15 @@ func genC09(tier string) []Scenario {
 		sc := batchScn{name: fmt.Sprintf("stop-fallback n=3 c=%d", c), n: 3, c: c, stop: true, budget: 1, fb: true, yield: c > 0, execMenu: okOrErrMenu, fbMenu: fbOkOrErr, bound: 1}
 		add(sc)
 	}
+	// unusual retry budgets (0, negative): whatever the node does with such a budget, an item whose
+	// exec never ran must not reach post as a success
+	for _, budget := range []int{0, -1} {
+		for _, c := range []int{0, 2} {
+			for _, stop := range []bool{true, false} {
+				add(batchScn{name: fmt.Sprintf("stop-budget n=2 c=%d stop=%v budget=%d", c, stop, budget), n: 2, c: c, stop: stop, budget: budget, yield: c > 0, execMenu: okOrErrMenu, bound: 0})
+			}
+		}
+	}
 	// a fallback that returns its input together with the error is still a failure
 	for _, c := range []int{0, 1} {
 		add(batchScn{name: fmt.Sprintf("stop-fallback-echo n=3 c=%d budget=2", c), n: 3, c: c, stop: true, budget: 2, fb: true, fbEcho: true, yield: c > 0, execMenu: okOrErrMenu, fbMenu: fbOkOrErr, bound: 1})
